@@ -73,6 +73,17 @@ CLAIMS["C17"] = (
     "(noted in DESIGN.md). A failed read leaves the grid cleared; behaviour when both files are unreadable is out of scope. D5/D6 were written after seeds C17-a/b were known.",
     "DESIGN.md 4/C17")
 
+CLAIMS["C12"] = (
+    "R-EFFECT: transitive write sets over the resolved call graph (virtual dispatch to all five grid classes, receiver-rooted propagation of member writes, global/static writes always) "
+    "from every const public method of TasmanianSparseGrid, device-only code excluded",
+    "Static rule discharge: 80 const public entry points and the ~900 functions they can reach in acceleration mode none perform no write to a mutable member of the grid object, "
+    "to a namespace-scope or function-local static variable, or through const_cast; helper classes' const methods are directly pure. Const purity is the structural necessary "
+    "condition for data-race freedom of concurrent const calls, and it is decided for all schedules at once because it does not depend on any schedule. One genuine violation "
+    "(wavelet interpolation matrix cache) is a listed known finding.",
+    "Race freedom inside the C++ standard library and of third-party BLAS is assumed; equality of results under concurrency follows from purity and is not decided separately. "
+    "Device paths (suffix GPU, on_gpu()/useKernels() guards, gpu acceleration cases) are excluded because the property is stated for the default acceleration mode.",
+    "DESIGN.md 4/C12")
+
 PENDING = {}
 
 NOT_APPLICABLE = {}
